@@ -203,7 +203,8 @@ def generated(base: Dict[str, Any], rng: random.Random, per_type: int) -> Dict[s
 
 
 def sig_fn(tr, event, stuck):
-    exc = re.sub(r"\d+", "N", tr["meta"].get("exception", ""))[:100]
+    exc = re.sub(r"[0-9a-f]{8}-[0-9a-f]{4}-[0-9a-f]{4}-[0-9a-f]{4}-[0-9a-f]{12}", "UUID", tr["meta"].get("exception", ""))
+    exc = re.sub(r"\d+", "N", exc)[:100]
     return {"scenario": re.sub(r"#\d+$", "", tr["meta"]["scenario"]), "exc": exc}
 
 
@@ -266,7 +267,7 @@ def main(tier: str, seed: int) -> int:
     # edge, i.e. every operation at every reachable state of a node and a service / application / file on it
     from . import tour
 
-    for facet in ("svc", "app", "fs"):
+    for facet in ("svc", "app", "fs", "ssh"):
         g = tour.graph(facet)
         eps, st = tour.tour(g, random.Random(seed), episode_len=300, level="timers" if tier == "quick" else "exact")
         chk.add_mc(f"Lifecycle({facet}, PowDur=2, FixDur=2, RestDur=2)", g["tlc"])
